@@ -5,10 +5,13 @@ import Verif.Model.Revocation
   `h reqs=<R>;<R>;… evs=<E>,<E>,…`
       R = `<kind>:<key>:<tag>:<fault>:<crlFails>:<otherOK>`; kind = rx0 | rx1 (X.509 revocation without /
           with CRL regeneration) | rs (SSH revocation) | nx (X.509 renew/rekey) | ns (SSH renew/rekey);
-          key = `x<hex>`; fault = n | b | a;   E = `s<thread>` | `r0`
-      output: one answer per request joined by `,` (ok already err revoked rerr other allowed drop pend),
+          key = `x<hex>`: for a revocation the serial string *as sent* (the driver applies the route's
+          `Validate` canonicalisation `wireKey`; refused ⇒ the request is answered `bad` and never runs), for a
+          renewal the decimal serial of the certificate; fault = n | b | a;   E = `s<thread>` | `r0`
+      output: one answer per request joined by `,` (ok already err revoked rerr other allowed drop pend bad),
           then ` x=[<key>=<tag>,…] s=[…]` — both revoked tables sorted by key
   `v s=x<hex>`     RevokeRequest.Validate's serial canonicalisation: `x<hex>` | `bad`
+  `vs s=x<hex>`    SSHRevokeRequest.Validate's serial canonicalisation: `x<hex>` | `bad`
 -/
 open Verif Verif.Store Verif.Rev
 
@@ -33,8 +36,18 @@ def fault? : String → Option Fault
 def req? (t : String) : Option Req :=
   match t.splitOn ":" with
   | [k, key, tag, f, c, o] => do
-    pure { inp := { kind := (← kind? k), key := (← str? key), tag := (← tag.toNat?), fault := (← fault? f),
-                    crlFails := (← bool? c), otherOK := (← bool? o) } }
+    let kind ← kind? k
+    let raw ← str? key
+    let tag ← tag.toNat?
+    let f ← fault? f
+    let c ← bool? c
+    let o ← bool? o
+    let inp (key : Str) : Inp := { kind := kind, key := key, tag := tag, fault := f, crlFails := c, otherOK := o }
+    if kind.isRevoke then
+      match wireKey kind.isSSH raw with
+      | some key => pure { inp := inp key }
+      | none => pure { inp := inp raw, out := .badRequest }
+    else pure { inp := inp raw }
   | _ => none
 
 def ev? (t : String) : Option Ev :=
@@ -47,7 +60,7 @@ def list? {α : Type} (sep : String) (f : String → Option α) (t : String) : O
 def outS : Out → String
   | .pending => "pend" | .ok => "ok" | .already => "already" | .err => "err"
   | .refusedRevoked => "revoked" | .refusedErr => "rerr" | .refusedOther => "other"
-  | .allowed => "allowed" | .dropped => "drop"
+  | .allowed => "allowed" | .dropped => "drop" | .badRequest => "bad"
 
 def strLe : Str → Str → Bool
   | [], _ => true
@@ -72,6 +85,10 @@ def eval (line : String) : Option String := do
     pure (String.intercalate "," (s.2.map (outS ·.out)) ++ " x=" ++ tableS s.1.x509 ++ " s=" ++ tableS s.1.ssh)
   | some "v" =>
     match canonSerial (← str? (← lookup kv "s")) with
+    | some c => pure ("x" ++ hex c)
+    | none => pure "bad"
+  | some "vs" =>
+    match canonSSHSerial (← str? (← lookup kv "s")) with
     | some c => pure ("x" ++ hex c)
     | none => pure "bad"
   | _ => none
